@@ -317,6 +317,7 @@ func (v *queue_[V]) RemoveAll() {
 			if !ok {
 				return // The queue has been closed and is now empty.
 			}
+			verifPoint(verifLock, v)
 			v.mutex_.Lock()
 			v.values_.RemoveValue(1)
 			v.mutex_.Unlock()
